@@ -382,7 +382,7 @@ def run(chk):
             except Exception as e:
                 if isinstance(e, T.Unsupported):
                     raise
-                chk.fail(f"{tag}.no_exception", f"{type(e).__name__}: {e}", fn=fnname, replay=rp)
+                chk.raised(f"{tag}.no_exception", e, fn=fnname, replay=rp)
             finally:
                 ad.exp_matrix = saved_em
                 hook.ACTIVE_CUTS.clear()
